@@ -247,7 +247,8 @@ def discharge(repo: Repo, rel: str, q: str, fn: ast.FunctionDef, s: Site, sub: C
         if d == 'int' and len(node.args) == 1 and q == 'decimal_to_int':      # type: ignore[attr-defined]
             # a chunk of the decimal token: `S[a : a + K]` with a literal K no larger than 640 (the smallest conversion limit python
             # can be configured with); the text is the dec_num token (only digits) - C12.LITERALS validates this decoder
-            a0 = resolve_names(fn, node.args[0])          # type: ignore[attr-defined]
+            from ..pyfacts import inline_module_constants as _imc
+            a0 = _imc(repo, rel, resolve_names(fn, node.args[0]))          # type: ignore[attr-defined]   # a module-level chunk width reads as its literal
             if isinstance(a0, ast.Subscript) and isinstance(a0.slice, ast.Slice) and a0.slice.lower is not None and a0.slice.upper is not None \
                     and a0.slice.step is None and isinstance(a0.value, ast.Name) and a0.value.id in param_names(fn):
                 from ..linexpr import Env as _Env, py_ir as _py_ir, to_lin as _to_lin
@@ -293,6 +294,17 @@ def _is_range_index(node: ast.AST, name: str) -> bool:
         if isinstance(a, (ast.ListComp, ast.GeneratorExp, ast.SetComp)) and any(counts(g.target, g.iter) for g in a.generators):
             return True
         if isinstance(a, ast.For) and counts(a.target, a.iter):
+            return True
+    # a counting local kept by hand: bound once to a literal >= 0 and otherwise only advanced by positive literals (`k += 1`) - it
+    # counts iterations like an enumerate() index does
+    fn = next((a for a in ancestors(node) if isinstance(a, (ast.FunctionDef, ast.AsyncFunctionDef))), None)
+    if fn is not None:
+        stores = [x for x in walk_no_nested(fn) if isinstance(x, ast.Name) and x.id == name and isinstance(x.ctx, ast.Store)]
+        inits = [x for x in walk_no_nested(fn) if isinstance(x, ast.Assign) and len(x.targets) == 1 and isinstance(x.targets[0], ast.Name)
+                 and x.targets[0].id == name and isinstance(x.value, ast.Constant) and type(x.value.value) is int and x.value.value >= 0]
+        steps = [x for x in walk_no_nested(fn) if isinstance(x, ast.AugAssign) and isinstance(x.target, ast.Name) and x.target.id == name
+                 and isinstance(x.op, ast.Add) and isinstance(x.value, ast.Constant) and type(x.value.value) is int and x.value.value > 0]
+        if len(inits) == 1 and steps and len(stores) == len(inits) + len(steps) and name not in {a_.arg for a_ in fn.args.args + fn.args.kwonlyargs}:
             return True
     return False
 
